@@ -76,7 +76,8 @@ Definition c05_step (x : ctx) (o : op) (ob : obs) : bool :=
           negb (has_id before i) && has_id after i
           && Nat.eqb (List.length after) (S (List.length before))
       | Some i, Ok (VDoc [("inserted_id", j)]) =>
-          negb (has_id before i) && value_eqb i j && has_id after i
+          (* the reported id is the (normalised) id the document is stored under *)
+          negb (has_id before i) && value_eqb (patch i) j && has_id after i
       | Some i, Err e =>
           (* a duplicate is rejected with DuplicateKeyError and nothing changes *)
           if has_id before i then err_eqb e EDup && store_eqb before after else true
